@@ -87,6 +87,25 @@ def dispatch_table(ctx, props):
                 ctx.ob(props, 'RF1-sdo-dispatch', 'COSdoResponse', site,
                        '%s row matched: %s' % (kind, sorted(map(str, routes))[0]))
             grouped.setdefault((st, str(sorted(map(str, routes)))), []).append(cmd)
+            # a sub-block that starts while the server waits for "end or next sub-block" (DNWAIT) switches the dispatcher
+            # back to DOWNLOAD before the segment is handled: in DNWAIT the end-request pattern C1h|n<<2 is tested first, and
+            # segment numbers 65, 69, ... 125 with the c bit set look exactly like it - left in DNWAIT, a later last segment
+            # is answered as an end request and its bytes are dropped
+            if st == 'BLK_DNWAIT':
+                for t in traces:
+                    if 'COSdoDownloadBlock' in t.call_names():
+                        sts = [e for e in t.stores() if e[4] == ('CO_SDO_BLK', 'State')]
+                        okst = bool(sts) and sts[-1][2] == m.enum('BLK_DOWNLOAD')
+                        s2 = 'state BLK_DNWAIT cmd %02Xh: next sub-block' % cmd
+                        if okst:
+                            ctx.ob(props, 'RF1-sdo-dispatch', 'COSdoResponse', s2, 'dispatcher state set to BLK_DOWNLOAD before the segment is handled',
+                                   nontrivial=False)
+                        else:
+                            ctx.ob(props, 'RF1-sdo-dispatch', 'COSdoResponse', s2, None)
+                            ctx.find(props, 'RF1-sdo-dispatch', 'COSdoResponse', 'dnwait-not-left', m.loc('COSdoResponse', m.funcs['COSdoResponse'].line),
+                                     'a segment that starts the next sub-block in state BLK_DNWAIT (command byte %02Xh) is handed to '
+                                     'COSdoDownloadBlock without setting Blk.State to BLK_DOWNLOAD: the following segments are decoded in '
+                                     'DNWAIT, where a last segment numbered 65, 69, ... is taken for the end request' % cmd)
     ctx.inst('RF1.sdo-dispatch.rows', len(table))
     out = {}
     for (st, r), cmds in sorted(grouped.items()):
